@@ -25,7 +25,7 @@ from common import Corr, Broken, coq_eval, coq_eval_many, parse_evals, cstr, VER
 from translate import gates_tr, qasm_tr  # noqa: E402
 
 ID = "C04"
-TARGETS = ["Props/C04.vo"]
+TARGETS = ["Proofs/QasmSpecTotal.vo", "Props/C04.vo"]
 TRUSTED = [
     "the tokenizer / regular expressions of qasm.py (_tokenize, _tokenize_line, _gate_processor, the regexes of _regs_processor and "
     "_initialize_pass) are NOT modelled: they are tied only by running the real read_qasm on the text printed (one statement per "
@@ -42,7 +42,8 @@ TRUSTED = [
     "import_sound / import_sound_unitary are stated against spec_prog with the importer's signature table sig0 as the set of library-level "
     "gates (equal to the standard's table by shortcut_table_complete); the meaning of a library-level gate is its qelib1.inc body expanded "
     "symbolically to U/CX and instantiated at the atoms of its parameter values (aenv: an arbitrary assignment of units to value lists); "
-    "import_total assumes that no division by zero occurs (vdiv total); spec-side totality (wf p -> spec_prog p <> None) is not proved",
+    "import_total / spec_total / import_sound_total assume that no division by zero occurs (vdiv total); spec-side totality (wf p -> spec_prog p <> None) "
+    "is proved (spec_total), so import_sound_total carries no definedness hypothesis",
     "equivalence used: for every record of measurement outcomes the unnormalised branch state agrees up to a unit scalar that may "
     "depend on the record (records are classical, so this is unobservable); a single common scalar is impossible because the "
     "library's X, H, S, T, CZ.. differ from the qelib1 definitions by gate-dependent phases inside if-statements",
